@@ -313,3 +313,19 @@ Theorem C05_map_nested_remove_per_actor_refuted_witness :
 Proof. exact map_T3_per_actor_refuted. Qed.
 Print Assumptions C05_map_nested_remove_per_actor_refuted_witness.
 
+
+(** the value half under PER-ACTOR delivery for histories without nested removes (proofs/MapOrswotPA.v) *)
+From Crdt Require Import proofs.MapOrswotPA.
+Theorem C05_mapor_values_refine_per_actor (H : list (oprec (mop oop))) : mohist_ok_pa H ->
+  forall (s : cmap orswot) (K : gset nat), moreach_pa H s K ->
+    forall k, mo_state_entries s k = mo_entries (known_ops H K) k.
+Proof. exact (mapor_values_refine_pa H). Qed.
+Print Assumptions C05_mapor_values_refine_per_actor.
+
+Theorem C05_mapor_member_sentence_per_actor (H : list (oprec (mop oop))) (s : cmap orswot) (K : gset nat) (k m : N) :
+  mohist_ok_pa H -> moreach_pa H s K ->
+  (m ∈ dom (mo_state_entries s k) <->
+    exists d0 d ms, MUp d0 k (OAdd d ms) ∈ known_ops H K /\ m ∈ ms /\
+      ~ exists c ks, MRm c ks ∈ known_ops H K /\ k ∈ ks /\ dcounter d <= vget c (dactor d)).
+Proof. exact (mapor_member_iff_pa H s K k m). Qed.
+Print Assumptions C05_mapor_member_sentence_per_actor.
